@@ -43,7 +43,7 @@ static void gen_knobs(bool quick) {
     K.short_write_pm = sim_rndn(4) == 0 ? (int)sim_rndn(300) : 0;
     K.eintr_pm = sim_rndn(4) == 0 ? (int)sim_rndn(100) : 0;
     K.zombie_delay_us = sim_rndn(2) ? (int)sim_rndn(200) : 0;
-    K.max_steps = quick ? 3000000 : 20000000;
+    K.max_steps = quick ? 3000000 : 20000000; K.max_blocks = 150000000;
 }
 static void plan_gen(DPlan *P, uint64_t seed, const RunOpts *o) {
     memset(P, 0, sizeof *P);
@@ -73,10 +73,11 @@ static void plan_gen(DPlan *P, uint64_t seed, const RunOpts *o) {
         P->nbad = 1 + (int)sim_rndn(quick ? 6 : 12);
         for (int i = 0; i < P->nbad; i++) {
             PBad *b = &P->b[i];
-            b->kind = (int)sim_rndn(BK_HOSTILE);   /* hostile modules are generated by the store family catalogue, added later */
-            b->arg = (int)sim_rndn(1000);
+            b->kind = sim_rndn(3) == 0 ? BK_HOSTILE : (int)sim_rndn(BK_HOSTILE);
+            b->arg = (int)sim_rndn(b->kind == BK_HOSTILE ? 1000000 : 1000);
             b->arrive = window ? sim_rndn((uint32_t)window + 1) : 0;
             snprintf(b->prog, sizeof b->prog, "%s", b->kind == BK_SLOWREADER || b->kind == BK_MIDOUTPUT ? "bigout" : pick_prog(true));
+            if (b->kind == BK_HOSTILE) while (strcmp(b->prog, "bigout") == 0 || strcmp(b->prog, "recurse") == 0) snprintf(b->prog, sizeof b->prog, "%s", pick_prog(true));
             b->tok = 0;
         }
     }
@@ -116,7 +117,7 @@ static bool plan_parse(DPlan *P, uint64_t *seed, const char *path) {
 }
 
 /* ---------------- misbehaving peers ---------------- */
-typedef struct BadState { PBad *b; int idx; bool connected; bool got_error; bool got_eof; bool got_exit; int replies; size_t reply_bytes; int err; bool done; } BadState;
+typedef struct BadState { PBad *b; int idx; bool skipped, sent_hostile, standalone_loaded; bool connected; bool got_error; bool got_eof; bool got_exit; int replies; size_t reply_bytes; int err; bool done; } BadState;
 static char sock_path[128];
 static void put_hdr(uint8_t *h, uint8_t ver, uint8_t type, uint32_t len) {
     h[0] = ver; h[1] = type; h[2] = 0; h[3] = 0; h[4] = (uint8_t)len; h[5] = (uint8_t)(len >> 8); h[6] = (uint8_t)(len >> 16); h[7] = (uint8_t)(len >> 24);
@@ -209,6 +210,17 @@ static void *bad_peer(void *arg) {
         put_hdr(h, VMD_PROTO_VERSION, VMD_MSG_LOAD_EXEC, (uint32_t)m->n); send_all(fd, h, sizeof h); send_all(fd, m->d, m->n);
         drain_replies(fd, st, 1 + (size_t)b->arg * 3);  /* hang up while the program is still printing */
         break;
+    case BK_HOSTILE: {
+        Buf hb = {0}; char desc[128] = ""; char key[64];
+        snprintf(key, sizeof key, "%s.%d.h%d", b->prog, b->tok, b->arg);
+        Ref *ref = ref_lookup_key(key);
+        /* scoping rule: mutants on which the standalone VM itself crashes or spins are C13's business */
+        if (!ref || !ref->valid || !hostile_make(m->d, m->n, (uint32_t)b->arg, &hb, desc, sizeof desc)) { st->skipped = true; break; }
+        st->sent_hostile = true; st->standalone_loaded = ref->deser_ok && ref->instrs > 0;
+        put_hdr(h, VMD_PROTO_VERSION, VMD_MSG_LOAD_EXEC, (uint32_t)hb.len); send_all(fd, h, sizeof h); send_all(fd, hb.d, hb.len);
+        drain_replies(fd, st, 0);
+        buf_free(&hb);
+        break; }
     default: break;
     }
     k_close(fd);
@@ -260,6 +272,13 @@ static void fam_prepare(uint64_t seed, const RunOpts *o) {
     if (o->planfile) { if (!plan_parse(&P, &s, o->planfile)) return; }
     else plan_gen(&P, seed, o);
     for (int i = 0; i < P.nclients; i++) ref_get(P.c[i].prog, P.c[i].tok);
+    for (int i = 0; i < P.nbad; i++) if (P.b[i].kind == BK_HOSTILE) {
+        Module *m = corpus_find(P.b[i].prog, P.b[i].tok); if (!m) continue;
+        Buf hb = {0}; char desc[128]; char key[64];
+        snprintf(key, sizeof key, "%s.%d.h%d", P.b[i].prog, P.b[i].tok, P.b[i].arg);
+        if (hostile_make(m->d, m->n, (uint32_t)P.b[i].arg, &hb, desc, sizeof desc)) ref_get_blob(key, hb.d, hb.len);
+        buf_free(&hb);
+    }
 }
 
 static void fam_run(uint64_t seed, const RunOpts *o, Result *r) {
@@ -370,6 +389,8 @@ static void fam_run(uint64_t seed, const RunOpts *o, Result *r) {
     probe(r, "cop_sessions", S.execs > (uint64_t)(P.mode == 1 ? nd : 0) ? S.execs - (uint64_t)(P.mode == 1 ? nd : 0) : 0);
     { int kc[BK_NKINDS] = {0}; for (int i = 0; i < P.nbad; i++) kc[P.b[i].kind]++;
       for (int k = 0; k < BK_NKINDS; k++) if (kc[k]) { char nm[48]; snprintf(nm, sizeof nm, "bad_%s", bk_name[k]); probe(r, nm, (uint64_t)kc[k]); } }
+    { uint64_t hs = 0, hk = 0, hl = 0; for (int i = 0; i < P.nbad; i++) { hs += bs[i].sent_hostile; hk += bs[i].skipped; hl += bs[i].standalone_loaded; }
+      probe(r, "hostile_sent", hs); probe(r, "hostile_skipped_standalone_crash_or_spin", hk); probe(r, "hostile_that_standalone_executes", hl); }
     int nk = 0; for (int i = 0; i < P.nclients; i++) if (P.c[i].kill_sys && WIFSIGNALED(cl[i]->status)) nk++;
     probe(r, "clients_killed", (uint64_t)nk);
 }
